@@ -196,6 +196,10 @@ class QlassF(QCircuitWrapper):
     def decode_output(
         self, istr: Union[str, int, List[bool]]
     ) -> Union[bool, Tuple, Qtype]:
+        if isinstance(istr, int):
+            # an integer reading carries no leading zeros: restore them
+            istr = bin(istr)[2:].zfill(len(self.returns))
+
         fcome = format_outcome(istr)[::-1]  # TODO: we need an endianess paramter
         return interpret_as_qtype(fcome[::-1], self.returns.ttype, len(self.returns))
 
